@@ -1237,7 +1237,8 @@ def directed(ctx, max_mem_src, alias_live=None):
                     should_fail = size != 0 and loc + size > M
                     f = lambda: State(memory=mem).mslice(loc, size)  # noqa: E731
                 elif which == "ret":
-                    should_fail = loc > M or (size != 0 and loc + size > M)
+                    # an empty range does not touch memory (EVM: no expansion for size 0), whatever the offset
+                    should_fail = size != 0 and loc + size > M
                     f = lambda: State(stack=[BV(size, size=256), BV(loc, size=256)], memory=mem).ret()  # noqa: E731
                 else:
                     should_fail = size > M
@@ -1485,9 +1486,9 @@ def correspond(ctx):
     ctx.extra["exhaustive_scope"] = f"all histories of length <= {'3' if full3 else '2'} over an alphabet of {len(A)} operations on the offset grid {GRID}"
 
     # 2. random histories
-    n_rand = ctx.scale(4000, 20000)
-    max_len = ctx.scale(40, 80)
-    max_off = ctx.scale(96, 4096)
+    n_rand = ctx.scale(4000, 8000)
+    max_len = ctx.scale(40, 60)
+    max_off = ctx.scale(96, 1024)
     gen = Gen(ctx.rng, lits, max_off)
     batch = 0
     for i in range(n_rand):
